@@ -720,6 +720,42 @@ fn ctr_pbkw(a: &Value) -> (bool, String) {
     }
 }
 
+/// C03: tokens signed by the independent P-384 implementation (paseto-v3-aws-lc, random k, no low-S
+/// normalisation: about half of its signatures have s > n/2) are specification-conforming and must
+/// verify under paseto-v3 with the same public key.  REPRODUCED if paseto-v3 rejects one.
+fn cross_v3_public(a: &Value) -> (bool, String) {
+    type A = paseto_v3_aws_lc::core::V3;
+    type R = paseto_v3::core::V3;
+    let loops = num(a, "loops", 64);
+    let sk = match SecretKey::<A>::random() {
+        Ok(k) => k,
+        Err(e) => return (false, format!("aws-lc key generation failed: {e}")),
+    };
+    let pk_text = sk.public_key().to_string();
+    let pk: paseto_core::PublicKey<R> = match pk_text.parse() {
+        Ok(k) => k,
+        Err(e) => return (true, format!("CONDITION key_rejected\npaseto-v3 rejects the public key {pk_text}: {e}")),
+    };
+    let mut signed = 0;
+    for i in 0..loops {
+        let tok = UnsealedToken::<A, Public, Raw>::new(Raw(vec![i as u8, 1, 2])).with_footer(b"f".to_vec());
+        let sealed = match tok.sign_with_aad(&sk, b"a") {
+            Ok(s) => s,
+            Err(_) => continue, // aws-lc signing failure is C01's subject, not this recipe's
+        };
+        signed += 1;
+        let s = sealed.to_string();
+        let parsed: SealedToken<R, Public, Raw, Vec<u8>> = match s.parse() {
+            Ok(p) => p,
+            Err(e) => return (true, format!("CONDITION parse_err\npaseto-v3 does not parse {s}: {e}")),
+        };
+        if let Err(e) = parsed.verify_with_aad(&pk, b"a", &nv()) {
+            return (true, format!("CONDITION sibling_rejected\npaseto-v3 rejected token {i} signed by paseto-v3-aws-lc for the same key: {e}\n{s}"));
+        }
+    }
+    (false, format!("paseto-v3 verified all {signed} tokens signed by paseto-v3-aws-lc"))
+}
+
 fn main() {
     let recipe = std::env::args().nth(1).unwrap_or_default();
     let mut inp = String::new();
@@ -732,6 +768,9 @@ fn main() {
         }
         if recipe == "ctr_pbkw" {
             return ctr_pbkw(&a);
+        }
+        if recipe == "cross_v3_public" {
+            return cross_v3_public(&a);
         }
         match text(&a, "backend") {
             "v1" => dispatch::<paseto_v1::core::V1>(&recipe, &a, "v1", "k1"),
